@@ -10,15 +10,53 @@ package py
 
 import (
 	"bytes"
+	"math"
+	"math/big"
 	"reflect"
 )
 
 var SetType = NewTypeX("set", "set() -> new empty set object\nset(iterable) -> new set object\n\nBuild an unordered collection of unique elements.", SetNew, nil)
 
-type SetValue struct{}
-
+// A Set keeps its members in a go map.  The key of a member is the
+// member itself, except that numbers which are equal in python (1,
+// 1.0, True and a big int 1) share one key - see setKey.  The value
+// is the member as it was first added.
 type Set struct {
-	items map[Object]SetValue
+	items map[interface{}]Object
+}
+
+// setBigKey is the key of an integral number too big for an Int
+type setBigKey string
+
+// setKey returns the map key of a member of a set
+//
+// Equal numbers have equal keys whatever their type, as equal python
+// numbers have equal hashes.
+func setKey(item Object) interface{} {
+	switch x := item.(type) {
+	case Bool:
+		if x {
+			return Int(1)
+		}
+		return Int(0)
+	case Float:
+		f := float64(x)
+		if f != math.Trunc(f) || math.IsInf(f, 0) {
+			return item
+		}
+		if f >= -9223372036854775808.0 && f < 9223372036854775808.0 {
+			return Int(f)
+		}
+		b, _ := new(big.Float).SetFloat64(f).Int(nil)
+		return setBigKey(b.String())
+	case *BigInt:
+		b := (*big.Int)(x)
+		if b.IsInt64() {
+			return Int(b.Int64())
+		}
+		return setBigKey(b.String())
+	}
+	return item
 }
 
 // Type of this Set object
@@ -29,14 +67,14 @@ func (o *Set) Type() *Type {
 // Make a new empty set
 func NewSet() *Set {
 	return &Set{
-		items: make(map[Object]SetValue),
+		items: make(map[interface{}]Object),
 	}
 }
 
 // Make a new empty set with capacity for n items
 func NewSetWithCapacity(n int) *Set {
 	return &Set{
-		items: make(map[Object]SetValue, n),
+		items: make(map[interface{}]Object, n),
 	}
 }
 
@@ -44,7 +82,7 @@ func NewSetWithCapacity(n int) *Set {
 func NewSetFromItems(items []Object) *Set {
 	s := NewSetWithCapacity(len(items))
 	for _, item := range items {
-		s.items[item] = SetValue{}
+		s.Add(item)
 	}
 	return s
 }
@@ -68,7 +106,13 @@ func init() {
 // Set members are keys of a go map, so values whose go type is not
 // comparable (tuples, lists, dicts, bytes) would panic when hashed
 func CheckHashable(item Object) error {
-	if item == nil || !reflect.TypeOf(item).Comparable() {
+	mutable := false
+	switch item.(type) {
+	case *List, *Set:
+		// (a *FrozenSet is not a *Set)
+		mutable = true
+	}
+	if item == nil || mutable || !reflect.TypeOf(item).Comparable() {
 		name := "NoneType"
 		if item != nil {
 			name = item.Type().Name
@@ -80,7 +124,23 @@ func CheckHashable(item Object) error {
 
 // Add an item to the set
 func (s *Set) Add(item Object) {
-	s.items[item] = SetValue{}
+	key := setKey(item)
+	if _, found := s.items[key]; !found {
+		s.items[key] = item
+	}
+}
+
+// Contains reports whether item (which must be hashable) is in the set
+func (s *Set) Contains(item Object) bool {
+	_, found := s.items[setKey(item)]
+	return found
+}
+
+func (s *Set) M__contains__(item Object) (Object, error) {
+	if err := CheckHashable(item); err != nil {
+		return nil, err
+	}
+	return NewBool(s.Contains(item)), nil
 }
 
 // SetNew
@@ -124,7 +184,7 @@ func NewFrozenSetFromItems(items []Object) *FrozenSet {
 // Extend the set with items
 func (s *Set) Update(items []Object) {
 	for _, item := range items {
-		s.items[item] = SetValue{}
+		s.Add(item)
 	}
 }
 
@@ -140,7 +200,7 @@ func (s *Set) M__repr__() (Object, error) {
 	var out bytes.Buffer
 	out.WriteRune('{')
 	spacer := false
-	for item := range s.items {
+	for _, item := range s.items {
 		if spacer {
 			out.WriteString(", ")
 		}
@@ -157,7 +217,7 @@ func (s *Set) M__repr__() (Object, error) {
 
 func (s *Set) M__iter__() (Object, error) {
 	items := make(Tuple, 0, len(s.items))
-	for item := range s.items {
+	for _, item := range s.items {
 		items = append(items, item)
 	}
 	return NewIterator(items), nil
@@ -169,9 +229,15 @@ func (s *Set) M__and__(other Object) (Object, error) {
 	if !ok {
 		return nil, ExceptionNewf(TypeError, "unsupported operand type(s) for &: '%s' and '%s'", s.Type().Name, other.Type().Name)
 	}
-	for i := range b.items {
-		if _, ok := s.items[i]; ok {
-			ret.items[i] = SetValue{}
+	// walk the smaller set (other if they are the same size): the
+	// members of the result come from that one
+	small, large := b, s
+	if len(s.items) < len(b.items) {
+		small, large = s, b
+	}
+	for k, item := range small.items {
+		if _, ok := large.items[k]; ok {
+			ret.items[k] = item
 		}
 	}
 	return ret, nil
@@ -183,12 +249,12 @@ func (s *Set) M__or__(other Object) (Object, error) {
 	if !ok {
 		return nil, ExceptionNewf(TypeError, "unsupported operand type(s) for &: '%s' and '%s'", s.Type().Name, other.Type().Name)
 	}
-	for j := range s.items {
-		ret.items[j] = SetValue{}
+	for k, item := range s.items {
+		ret.items[k] = item
 	}
-	for i := range b.items {
-		if _, ok := s.items[i]; !ok {
-			ret.items[i] = SetValue{}
+	for k, item := range b.items {
+		if _, ok := s.items[k]; !ok {
+			ret.items[k] = item
 		}
 	}
 	return ret, nil
@@ -200,12 +266,9 @@ func (s *Set) M__sub__(other Object) (Object, error) {
 	if !ok {
 		return nil, ExceptionNewf(TypeError, "unsupported operand type(s) for &: '%s' and '%s'", s.Type().Name, other.Type().Name)
 	}
-	for j := range s.items {
-		ret.items[j] = SetValue{}
-	}
-	for i := range b.items {
-		if _, ok := s.items[i]; ok {
-			delete(ret.items, i)
+	for k, item := range s.items {
+		if _, ok := b.items[k]; !ok {
+			ret.items[k] = item
 		}
 	}
 	return ret, nil
@@ -217,15 +280,14 @@ func (s *Set) M__xor__(other Object) (Object, error) {
 	if !ok {
 		return nil, ExceptionNewf(TypeError, "unsupported operand type(s) for &: '%s' and '%s'", s.Type().Name, other.Type().Name)
 	}
-	for j := range s.items {
-		ret.items[j] = SetValue{}
+	for k, item := range s.items {
+		if _, ok := b.items[k]; !ok {
+			ret.items[k] = item
+		}
 	}
-	for i := range b.items {
-		_, ok := s.items[i]
-		if ok {
-			delete(ret.items, i)
-		} else {
-			ret.items[i] = SetValue{}
+	for k, item := range b.items {
+		if _, ok := s.items[k]; !ok {
+			ret.items[k] = item
 		}
 	}
 	return ret, nil
@@ -292,9 +354,12 @@ func (a *Set) M__eq__(other Object) (Object, error) {
 	if len(a.items) != len(b.items) {
 		return False, nil
 	}
-	// FIXME nasty O(n**2) algorithm, waiting for proper hashing!
-	for i := range a.items {
-		for j := range b.items {
+	for k, i := range a.items {
+		if _, ok := b.items[k]; ok {
+			continue
+		}
+		// not there by key: look for a member which compares equal
+		for _, j := range b.items {
 			eq, err := Eq(i, j)
 			if err != nil {
 				return nil, err
